@@ -26,7 +26,7 @@ inner layers, re-encoded by refimpl with the archive's own key so that valid enc
 biased byte edits of the block stream and of the compression layer, forged file index with arbitrary offsets / sizes / eof \
 offsets / name lengths / length field, forged SizesInfo with arbitrary u32 values and counts, forged geometry = sizes table announcing up to 1100 extra empty \
 blocks together with an index length that places the index on / next to a block start of the claimed geometry, very long offset tables, \
-removed or duplicated end marker, typed blocks swapped / moved / duplicated / deleted / given another file's id). Script = open, list, get_file + reads (buffer sizes incl. 0), get_hash, linear_extract, \
+removed or duplicated end marker, typed blocks swapped / moved / duplicated / deleted / given another file's id, the id or length field of a typed block set to a boundary value or to the two's complement of a small number). Script = open, list, get_file + reads (buffer sizes incl. 0), get_hash, linear_extract, \
 repair in both modes, in generated order, continuing after every Err, finally drop. Cases run in worker processes. Oracle: \
 no panic; the worker survives (no abort / stack overflow / signal); source read+seek calls <= 64 x (input length + 4096) per \
 operation (work meter, deterministic hang detection); peak live heap during an operation <= 640 MiB + 64 x input length. \
@@ -86,6 +86,8 @@ pub enum Val {
     LenPlus(i8),
     PosPlus(i8),
     Small(u16),
+    /// two's complement of a small number (a length or offset that reads as negative when taken as signed)
+    Neg(u16),
 }
 impl Val {
     fn get(&self, len: usize, pos: usize) -> u64 {
@@ -94,6 +96,7 @@ impl Val {
             Val::LenPlus(d) => (len as i64 + *d as i64) as u64,
             Val::PosPlus(d) => (pos as i64 + *d as i64) as u64,
             Val::Small(x) => *x as u64,
+            Val::Neg(x) => (*x as u64).wrapping_neg(),
         }
     }
 }
@@ -148,6 +151,9 @@ pub enum Mutation {
     /// edit of the typed block stream at record granularity (the index is left as it was): kind 0 swap records a and
     /// b, 1 move record a before b, 2 duplicate a, 3 delete a, 4 give record a the file id of record b
     Records { kind: u8, a: u16, b: u16 },
+    /// one header field of one typed block gets a chosen value: field 0 = file id, 1 = length (name length of a
+    /// FileStart, data length of a FileContent)
+    RecordField { rec: u16, field: u8, val: Val },
 }
 
 #[derive(Clone, Copy, Debug, PartialEq, Eq, Hash, Serialize, Deserialize)]
@@ -467,6 +473,21 @@ pub fn build_input(c: &Case) -> (Vec<u8>, Vec<x25519_dalek::StaticSecret>, Vec<S
                             }
                         }
                     }
+                    Mutation::RecordField { rec, field, val } => {
+                        if let Ok((recs, _)) = refimpl::parse_records(&d.inner) {
+                            let n = recs.len().saturating_sub(1);
+                            if n >= 1 {
+                                let off = recs[util::idx(*rec, n)].0;
+                                let at = off + 1 + 8 * (*field as usize % 2);
+                                if at + 8 <= d.inner.len() {
+                                    let mut inner = d.inner.clone();
+                                    let v = val.get(inner.len(), off);
+                                    inner[at..at + 8].copy_from_slice(&v.to_le_bytes());
+                                    bytes = reencode_from_inner(&d, &inner);
+                                }
+                            }
+                        }
+                    }
                     Mutation::DropMarker | Mutation::DupMarker => {
                         if let (Ok((_, fstart)), Ok((_, moff))) = (refimpl::parse_footer(&d.inner), refimpl::parse_records(&d.inner)) {
                             let mut inner = d.inner[..moff].to_vec();
@@ -692,7 +713,7 @@ fn pos() -> impl Strategy<Value = Pos> {
     (any::<u16>(), prop::bool::weighted(0.4)).prop_map(|(frac, tail)| Pos { frac, tail })
 }
 fn val() -> impl Strategy<Value = Val> {
-    prop_oneof![5 => (0u8..22).prop_map(Val::Const), 2 => (-20i8..20).prop_map(Val::LenPlus), 1 => (-20i8..20).prop_map(Val::PosPlus), 2 => any::<u16>().prop_map(Val::Small)]
+    prop_oneof![5 => (0u8..22).prop_map(Val::Const), 2 => (-20i8..20).prop_map(Val::LenPlus), 1 => (-20i8..20).prop_map(Val::PosPlus), 2 => any::<u16>().prop_map(Val::Small), 2 => prop_oneof![1u16..40, any::<u16>()].prop_map(Val::Neg)]
 }
 fn byte_mut() -> impl Strategy<Value = ByteMut> {
     prop_oneof![
@@ -720,6 +741,7 @@ fn mutation() -> impl Strategy<Value = Mutation> {
         1 => Just(Mutation::DropMarker),
         1 => Just(Mutation::DupMarker),
         4 => (0u8..5, any::<u16>(), any::<u16>()).prop_map(|(kind, a, b)| Mutation::Records { kind, a, b }),
+        4 => (any::<u16>(), 0u8..2, val()).prop_map(|(rec, field, val)| Mutation::RecordField { rec, field, val }),
         2 => (if SCALED { 0u16..2000 } else { 0u16..60000 }).prop_map(|extra| Mutation::OverlongBlock { extra }),
         2 => (any::<u8>(), prop_oneof![Just(30u8), Just(28), Just(25), 10u8..31], any::<[u8; 4]>()).prop_map(|(block, bits, tail)| Mutation::LargeWindow { block, bits, tail }),
         2 => (prop_oneof![0u16..8, 8u16..1100], any::<bool>(), prop_oneof![0u16..2000, any::<u16>()], prop_oneof![3 => Just(0i8), 1 => Just(1i8), 1 => Just(-1i8), 1 => any::<i8>()]).prop_map(|(fake, front, k, d)| Mutation::Geometry { fake, front, k, d }),
